@@ -10,7 +10,8 @@ RULE = ("every digraph with 1..2 inputs and 2 gate nodes over {and,or,nand,not,x
         "self-loop, sampled ones with 3 gates, and seeded random lint-clean cyclic circuits (nested / overlapping "
         "cycles, several SCCs, constants, outputs that are inputs); every input valuation and every stable state "
         "(brute-force fixed points) is checked; non-trivial = the circuit has at least one stable state"
-        "; plus: names derived from the library's own naming templates, shuffled node insertion order")
+        "; plus: names derived from the library's own naming templates, shuffled node insertion order"
+        "; a 7-gate skeleton of nested loops sharing edges under permuted names, insertion orders and gate types")
 BOUND = "circuits <= 11 nodes, <= 3 inputs; all valuations and fixed points; 4/16 hash seeds"
 GT = ["and", "or", "nand", "not", "xor"]
 
@@ -67,6 +68,31 @@ def cases(tier, seed):
         nodes = [["i0", "input", False]] + [[n, t, False] for n, t in zip(ring, tys)] + [["o", "and", True], ["p", "xor", True]]
         edges = [[ring[j], ring[(j + 1) % 3]] for j in range(3)] + [["r1", "o"], ["i0", "o"], ["r2", "p"], ["i0", "p"]]
         yield {"c": {"name": "ring1", "nodes": nodes, "edges": edges, "bbs": {}}}
+    # a skeleton of several nested loops that share edges (every node on >= 2 cycles), under permuted names, insertion
+    # orders and gate types: which edges the feedback-set heuristic picks depends on all three
+    skel = [("g0", 2, ["g4", "g3"]), ("g2", 1, ["g4"]), ("g3", 3, ["g2", "g4", "g0"]), ("g4", 1, ["g8"]),
+            ("g6", 1, ["g2"]), ("g8", 2, ["g9", "g6"]), ("g9", 2, ["g8", "g2"])]
+    for i in range(40 if tier == "quick" else 600):
+        names = [r[0] for r in skel]
+        perm = names[:]
+        order = list(range(len(skel)))
+        if i:
+            rng.shuffle(perm)
+            rng.shuffle(order)
+        ren = dict(zip(names, perm))
+        nodes = [["i0", "input", False]]
+        edges = []
+        for k in order:
+            n_, ar, fi = skel[k]
+            t = rng.choice(["buf", "buf", "not"]) if ar == 1 else rng.choice(["and", "or", "nand", "nor", "xor", "xnor"])
+            nodes.append([ren[n_], t, n_ in ("g3", "g9")])
+            edges += [[ren[f], ren[n_]] for f in fi]
+        if i % 2:
+            edges += [["i0", ren["g0"]], ["i0", ren["g9"]]]
+        else:
+            nodes.append(["y", "and", True])
+            edges += [["i0", "y"], [ren["g3"], "y"]]
+        yield {"c": {"name": "nest", "nodes": nodes, "edges": edges, "bbs": {}}}
     for i in range(120 if tier == "quick" else 2500):
         cd = gen.random_circuit(rng, n_in=rng.randint(1, 3), n_gates=rng.randint(2, 7), max_fanin=3, p_const=0.2,
                                 cyclic=rng.randint(1, 3), p_out=0.4, allow_input_output=rng.random() < 0.2,
